@@ -34,6 +34,20 @@ type escaperEval struct {
 	replaced  bool
 	alts      []int64 // -1: a value that is no constant
 	uncertain int
+	// strs: local string variables with a known constant value (ref, ok := escapeRune(r, attr))
+	strs map[types.Object]string
+	// evaluation of a helper function: the values it can return, and whether the current path has ended
+	rets  []escRet
+	ended bool
+	broke bool // the path ended with a break (which leaves a switch only)
+	depth int
+}
+
+// escRet is one possible result of a helper of an escaper: (string, bool) or (string).
+type escRet struct {
+	str   string
+	known bool // the string is a constant
+	ok    int  // 1 true, 0 false, -1 unknown or absent
 }
 
 // tri evaluates a condition for the concrete rune: 1 true, 0 false, -1 unknown.
@@ -140,7 +154,37 @@ func (e *escaperEval) val(x ast.Expr) (int64, bool) {
 // run walks statements; returns false if the path certainly ended (return/continue).
 func (e *escaperEval) run(stmts []ast.Stmt) {
 	for _, s := range stmts {
+		if e.ended {
+			return
+		}
 		switch t := s.(type) {
+		case *ast.ReturnStmt:
+			ret := escRet{ok: -1}
+			if len(t.Results) >= 1 {
+				if tv := e.info.Types[t.Results[0]]; tv.Value != nil && tv.Value.Kind() == constant.String {
+					ret.str, ret.known = constant.StringVal(tv.Value), true
+				} else if id, isID := ast.Unparen(t.Results[0]).(*ast.Ident); isID {
+					if sv, has := e.strs[e.info.ObjectOf(id)]; has {
+						ret.str, ret.known = sv, true
+					}
+				}
+				for _, r := range t.Results {
+					e.sink(r)
+				}
+			}
+			if len(t.Results) == 2 {
+				ret.ok = e.tri(t.Results[1])
+			}
+			e.rets = append(e.rets, ret)
+			e.ended = true
+			return
+		case *ast.BranchStmt:
+			if t.Tok == token.CONTINUE || t.Tok == token.BREAK {
+				// continue: the body of the loop over the runes is left for this rune; break inside a switch ends the clause
+				e.ended = true
+				e.broke = t.Tok == token.BREAK
+				return
+			}
 		case *ast.ExprStmt:
 			e.sink(t.X)
 		case *ast.AssignStmt:
@@ -167,23 +211,45 @@ func (e *escaperEval) run(stmts []ast.Stmt) {
 			}
 		case *ast.IfStmt:
 			if t.Init != nil {
+				// x, ok := table[r]  /  x, ok := helper(r, flags): the possible outcomes are evaluated one by one
+				if outs, ok := e.initOutcomes(t.Init); ok {
+					as := t.Init.(*ast.AssignStmt)
+					allEnded := true
+					for _, o := range outs {
+						if id, isID := as.Lhs[0].(*ast.Ident); isID && id.Name != "_" {
+							if e.strs == nil {
+								e.strs = map[types.Object]string{}
+							}
+							if o.known {
+								e.strs[e.info.ObjectOf(id)] = o.str
+							} else {
+								delete(e.strs, e.info.ObjectOf(id))
+							}
+						}
+						if len(as.Lhs) == 2 {
+							if id, isID := as.Lhs[1].(*ast.Ident); isID && id.Name != "_" {
+								if e.bools == nil {
+									e.bools = map[types.Object]bool{}
+								}
+								if o.ok >= 0 {
+									e.bools[e.info.ObjectOf(id)] = o.ok == 1
+								} else {
+									delete(e.bools, e.info.ObjectOf(id))
+								}
+							}
+						}
+						e.ended = false
+						e.ifBranches(t)
+						if !e.ended {
+							allEnded = false
+						}
+					}
+					e.ended = allEnded && len(outs) > 0
+					continue
+				}
 				e.runStmt(t.Init)
 			}
-			switch e.tri(t.Cond) {
-			case 1:
-				e.run(t.Body.List)
-			case 0:
-				if t.Else != nil {
-					e.runStmt(t.Else)
-				}
-			default:
-				e.uncertain++
-				e.run(t.Body.List)
-				if t.Else != nil {
-					e.runStmt(t.Else)
-				}
-				e.uncertain--
-			}
+			e.ifBranches(t)
 		case *ast.SwitchStmt:
 			e.runSwitch(t)
 		case *ast.BlockStmt:
@@ -194,6 +260,125 @@ func (e *escaperEval) run(stmts []ast.Stmt) {
 
 func (e *escaperEval) runStmt(s ast.Stmt) {
 	e.run([]ast.Stmt{s})
+}
+
+// ifBranches evaluates the condition of an if statement for the current rune and runs the branch(es) it admits.
+func (e *escaperEval) ifBranches(t *ast.IfStmt) {
+	switch e.tri(t.Cond) {
+	case 1:
+		e.run(t.Body.List)
+	case 0:
+		if t.Else != nil {
+			e.runStmt(t.Else)
+		}
+	default:
+		e.uncertain++
+		e.run(t.Body.List)
+		endedA := e.ended
+		e.ended = false
+		if t.Else != nil {
+			e.runStmt(t.Else)
+		}
+		e.ended = endedA && e.ended
+		e.uncertain--
+	}
+}
+
+// initOutcomes evaluates `x, ok := table[r]` (a map literal at package level that is never assigned) or
+// `x[, ok] := helper(r, flags...)` (a function of the package, interpreted for the current rune).
+func (e *escaperEval) initOutcomes(init ast.Stmt) ([]escRet, bool) {
+	as, ok := init.(*ast.AssignStmt)
+	if !ok || len(as.Rhs) != 1 || len(as.Lhs) < 1 || len(as.Lhs) > 2 || e.replaced || len(e.alts) > 0 {
+		return nil, false
+	}
+	isRune := func(x ast.Expr) bool {
+		id, ok := ast.Unparen(x).(*ast.Ident)
+		return ok && e.info.ObjectOf(id) == e.rvar
+	}
+	switch rhs := ast.Unparen(as.Rhs[0]).(type) {
+	case *ast.IndexExpr:
+		if !isRune(rhs.Index) {
+			return nil, false
+		}
+		id, ok := ast.Unparen(rhs.X).(*ast.Ident)
+		if !ok {
+			return nil, false
+		}
+		v, ok := e.info.ObjectOf(id).(*types.Var)
+		if !ok || v.Parent() != v.Pkg().Scope() {
+			return nil, false
+		}
+		lit, ok := singleDefExpr[v]
+		if !ok {
+			return nil, false
+		}
+		cl, ok := ast.Unparen(lit).(*ast.CompositeLit)
+		if !ok {
+			return nil, false
+		}
+		if _, isMap := e.info.TypeOf(cl).Underlying().(*types.Map); !isMap {
+			return nil, false
+		}
+		for _, el := range cl.Elts {
+			kv, ok := el.(*ast.KeyValueExpr)
+			if !ok {
+				return nil, false
+			}
+			ktv, vtv := e.info.Types[kv.Key], e.info.Types[kv.Value]
+			if ktv.Value == nil || vtv.Value == nil || vtv.Value.Kind() != constant.String {
+				return nil, false
+			}
+			if k, ok := constant.Int64Val(constant.ToInt(ktv.Value)); ok && rune(k) == e.r {
+				return []escRet{{str: constant.StringVal(vtv.Value), known: true, ok: 1}}, true
+			}
+		}
+		return []escRet{{str: "", known: true, ok: 0}}, true
+	case *ast.CallExpr:
+		if e.pkg == nil || e.depth > 2 {
+			return nil, false
+		}
+		cal := Callee(e.info, rhs)
+		if cal == nil || cal.Pkg() != e.pkg.Types {
+			return nil, false
+		}
+		fd := findFuncDecl(e.pkg, cal)
+		if fd == nil || fd.Body == nil || fd.Type.Params == nil || fd.Type.Results == nil {
+			return nil, false
+		}
+		var params []*ast.Ident
+		for _, fl := range fd.Type.Params.List {
+			params = append(params, fl.Names...)
+		}
+		if len(params) != len(rhs.Args) {
+			return nil, false
+		}
+		sub := &escaperEval{c: e.c, info: e.info, pkg: e.pkg, r: e.r, bools: map[types.Object]bool{}, depth: e.depth + 1}
+		for i, a := range rhs.Args {
+			switch {
+			case isRune(a) && sub.rvar == nil:
+				sub.rvar = e.info.Defs[params[i]]
+			default:
+				switch e.tri(a) {
+				case 1:
+					sub.bools[e.info.Defs[params[i]]] = true
+				case 0:
+					sub.bools[e.info.Defs[params[i]]] = false
+				default:
+					return nil, false
+				}
+			}
+		}
+		if sub.rvar == nil {
+			return nil, false
+		}
+		sub.run(fd.Body.List)
+		// a helper that writes itself is not a pure (string, bool) function of the rune
+		if len(sub.sinks) > 0 || len(sub.rets) == 0 || !sub.ended {
+			return nil, false
+		}
+		return sub.rets, true
+	}
+	return nil, false
 }
 
 func (e *escaperEval) runSwitch(sw *ast.SwitchStmt) {
@@ -230,14 +415,21 @@ func (e *escaperEval) runSwitch(sw *ast.SwitchStmt) {
 				e.uncertain++
 				e.run(cc.Body)
 				e.uncertain--
+				e.ended, e.broke = false, false // the clause may not have been taken
 			}
 		}
 		if matched {
+			if e.broke {
+				e.ended, e.broke = false, false // break leaves the switch, the statements behind it run
+			}
 			return
 		}
 	}
 	if def != nil {
 		e.run(def.Body)
+		if e.broke {
+			e.ended, e.broke = false, false
+		}
 	}
 }
 
@@ -279,6 +471,12 @@ func (e *escaperEval) sink(x ast.Expr) {
 		e.sinks = append(e.sinks, escSink{"raw", "", call.Pos()})
 	case "WriteString":
 		if len(call.Args) == 1 {
+			if id, ok := ast.Unparen(call.Args[0]).(*ast.Ident); ok {
+				if sv, has := e.strs[e.info.ObjectOf(id)]; has {
+					e.sinks = append(e.sinks, escSink{"const", sv, call.Pos()})
+					return
+				}
+			}
 			if tv := e.info.Types[call.Args[0]]; tv.Value != nil && tv.Value.Kind() == constant.String {
 				e.sinks = append(e.sinks, escSink{"const", constant.StringVal(tv.Value), call.Pos()})
 				return
@@ -606,7 +804,22 @@ func ruleR172(c *Ctx) {
 			problems = append(problems, "Add has a value receiver: the separator state it updates is lost after each member")
 		}
 		if sep != add && !isPtrRecv(sep) {
-			problems = append(problems, sep.Name.Name+" has a value receiver: the separator state it updates is lost")
+			// the state may be handed to the helper by address (separate(&j.first)): then the helper's receiver does not matter
+			byAddress := false
+			if sep.Type.Params != nil {
+				for _, fl := range sep.Type.Params.List {
+					if pt, ok := info.TypeOf(fl.Type).(*types.Pointer); ok {
+						if b, ok := pt.Elem().Underlying().(*types.Basic); ok && b.Kind() == types.Bool {
+							byAddress = true
+						}
+					}
+				}
+			}
+			if byAddress {
+				undecided = "the separator state is handed to " + sep.Name.Name + " by address (a *bool parameter); the typestate check follows flags that are fields of the receiver only"
+			} else {
+				problems = append(problems, sep.Name.Name+" has a value receiver: the separator state it updates is lost")
+			}
 		}
 		// the state type and its path: every field on the path is held by value (a pointer could be shared between containers)
 		contT := LookupType(ep, typ.name)
@@ -637,6 +850,10 @@ func ruleR172(c *Ctx) {
 		}
 		if undecided == "" && len(problems) > 0 {
 			c.Violation(key, sep.Pos(), "%s", strings.Join(problems, "; "))
+			continue
+		}
+		if strings.Contains(undecided, "by address") {
+			c.Undecided(key, sep.Pos(), "%s", undecided)
 			continue
 		}
 		// (iii) the flag: the one bool field of the separator's receiver it tests
